@@ -146,7 +146,7 @@ TargetSeenUpTo(T, g) == \E h \in 1..g : GroupHasTag(T.map[h], "Target")
 TargetEver(T) == Len(T.map) > 0 /\ TargetSeenUpTo(T, Len(T.map))
 \* haplotype of a name of the haplotype-resolved style: the part before the first underscore, lower case ("" = none);
 \* the scenario generator uses exactly two spellings per haplotype
-LcTag(tg) == IF tg \in {"HAP1", "Hap1"} THEN "hap1" ELSE IF tg \in {"hap2", "HAP2"} THEN "hap2" ELSE ""
+LcTag(tg) == IF tg \in {"HAP1", "Hap1"} THEN "hap1" ELSE IF tg \in {"hap2", "HAP2"} THEN "hap2" ELSE IF tg \in {"Hap3", "HAP3"} THEN "hap3" ELSE ""
 \* T.haps[s] = haplotype (lower case, "" = none) that the NAME of input scaffold s stands for, as exported by the scenario model
 GroupHap(T, grp) == LET tagged == {LcTag(x) : x \in UNION {{grp.pieces[p].tags[q] : q \in 1..Len(grp.pieces[p].tags)} : p \in 1..Len(grp.pieces)}} \ {""}
                     IN IF tagged # {} THEN CHOOSE h \in tagged : TRUE ELSE T.haps[InputPos(T, grp.pieces[1].src)]
@@ -157,18 +157,27 @@ PieceDest(T, g, p) ==
   ELSE IF HasTag(pc, "Haplotig") THEN "haplotig"
   ELSE IF HasTag(pc, "Contaminant") \/ (TargetSeenUpTo(T, g) /\ ~GroupHasTag(T.map[g], "Target")) THEN "contaminant"
   ELSE GroupHap(T, T.map[g])
+\* "Primary" mode (a multi-haplotype map in which only one haplotype is curated): the haplotype of the scaffold carrying the Primary tag is
+\* written as THE primary assembly.  Through the library its assembly is keyed "Primary"; the command line tool writes it to
+\* <root>.<v>.primary.curated.* (read back as key "") and merges every other haplotype into <root>.<v>.all_haplotigs.curated.*
+PrimaryGroups(T) == {g \in 1..Len(T.map) : GroupHasTag(T.map[g], "Primary")}
+PrimaryHap(T) == IF PrimaryGroups(T) = {} THEN "" ELSE GroupHap(T, T.map[CHOOSE g \in PrimaryGroups(T) : TRUE])
+IsHapKey(d) == d \in {"hap1", "hap2", "hap3"}
+DestKey(T, d) == IF PrimaryHap(T) = "" \/ ~IsHapKey(d) THEN d
+                 ELSE IF "route" \in DOMAIN T THEN (IF d = PrimaryHap(T) THEN "" ELSE "all_haplotig")
+                 ELSE (IF d = PrimaryHap(T) THEN "primary" ELSE d)
 RoutedByTag(T) ==
   LET outL == [o \in 1..Len(T.out) |-> Layout(T.out[o].rows)] IN
   \A x \in AllPieces(T) :
      LET pc == T.map[x[1]].pieces[x[2]]  hits == CoreHits(T, outL, pc) IN
-     (Core(T, pc) # <<>>) => (Cardinality(hits) = 1 /\ T.out[(CHOOSE h \in hits : TRUE)[1]].asm_lc = PieceDest(T, x[1], x[2]))
+     (Core(T, pc) # <<>>) => (Cardinality(hits) = 1 /\ T.out[(CHOOSE h \in hits : TRUE)[1]].asm_lc = DestKey(T, PieceDest(T, x[1], x[2])))
 \* "that haplotype's assembly": haplotype names are compared case-insensitively, so no two output assemblies may differ in letter case only
 OneAssemblyPerHaplotype(T) == \A o1, o2 \in 1..Len(T.out) : T.out[o1].asm_lc = T.out[o2].asm_lc => T.out[o1].asm = T.out[o2].asm
 \* sequence absent from the map: contaminant once a Target tag exists anywhere, otherwise the assembly of its name's haplotype
 AbsentScaffolds(T) == {s \in 1..Len(T.input) : \A x \in AllPieces(T) : T.map[x[1]].pieces[x[2]].src # T.input[s].name}
 AbsentRouted(T) ==
   \A s \in AbsentScaffolds(T) : \A c \in Range(Frags(T.input[s].rows)) : \A o \in 1..Len(T.out) :
-     (\E f \in Range(Frags(T.out[o].rows)) : Inside(f, c)) => T.out[o].asm_lc = (IF TargetEver(T) THEN "contaminant" ELSE T.haps[s])
+     (\E f \in Range(Frags(T.out[o].rows)) : Inside(f, c)) => T.out[o].asm_lc = (IF TargetEver(T) THEN "contaminant" ELSE DestKey(T, T.haps[s]))
 
 \* ------------------------------------------------------------------ C11
 CutsDef(T) == Len(OutFrags(T)) - Len(InContigs(T))
